@@ -41,6 +41,8 @@ pub enum Violation {
 	/// NOT a violation: the excluded DNS subtree is ".domain" and the leaf names the bare domain,
 	/// which lies outside it. Both validators must still accept.
 	BareOutsideExcludedDot,
+	/// the excluded DNS subtree is the empty name, which every DNS name lies inside
+	ExcludedDnsEmpty,
 }
 
 /// Baseline chain (every constraint satisfied) plus the knobs the violations turn.
@@ -81,6 +83,12 @@ pub struct ChainSpec {
 	/// no name constraints anywhere in the chain (certificates can then be free of extensions)
 	#[serde(default)]
 	pub no_nc: bool,
+	/// validity windows end / begin one hour from the verification time instead of a month
+	#[serde(default)]
+	pub tight: bool,
+	/// the permitted DNS subtree is the empty name (matches every DNS name) next to an unrelated one
+	#[serde(default)]
+	pub permitted_dns_empty: bool,
 	pub violation: Option<Violation>,
 }
 
@@ -108,12 +116,13 @@ fn chain_spec() -> BoxedStrategy<ChainSpec> {
 			prop::bool::weighted(0.25),
 			prop::bool::weighted(0.35),
 			prop::bool::weighted(0.12),
-			(prop_oneof![2 => Just(0u32), 1 => 1u32..1_000_000_000], prop_oneof![2 => Just(0i32), 1 => -86_399i32..=86_399], prop::bool::weighted(0.3)),
+			(prop_oneof![2 => Just(0u32), 1 => 1u32..1_000_000_000], prop_oneof![2 => Just(0i32), 1 => -86_399i32..=86_399], prop::bool::weighted(0.3), prop::bool::weighted(0.4), prop::bool::weighted(0.15)),
 		),
 		prop_oneof![
 			3 => Just(None),
 			1 => Just(Some(Violation::PermittedDnsBare)),
 			1 => Just(Some(Violation::BareOutsideExcludedDot)),
+			1 => Just(Some(Violation::ExcludedDnsEmpty)),
 			1 => any::<bool>().prop_map(|explicit| Some(Violation::IssuerNotCa { explicit })),
 			1 => Just(Some(Violation::PathLen)),
 			1 => Just(Some(Violation::PathLenIntermediate)),
@@ -128,7 +137,7 @@ fn chain_spec() -> BoxedStrategy<ChainSpec> {
 		],
 	)
 		.prop_map(
-			|((three_level, keys, kids, at, client_purpose, root_path_len, inter_path_len, (nc_on_root, four_level)), (domain, v6, net, prefix, host_bits, ca_ku, leaf_extra_ekus, leaf_eku_empty, dns_dot, webpki_only_ku, (time_nanos, time_offset, no_nc)), violation)| {
+			|((three_level, keys, kids, at, client_purpose, root_path_len, inter_path_len, (nc_on_root, four_level)), (domain, v6, net, prefix, host_bits, ca_ku, leaf_extra_ekus, leaf_eku_empty, dns_dot, webpki_only_ku, (time_nanos, time_offset, no_nc, tight, permitted_dns_empty)), violation)| {
 				let width = if v6 { 16 } else { 4 };
 				let mut net = net;
 				let mut prefix = if v6 { prefix } else { (prefix - 1) % 32 + 1 };
@@ -170,8 +179,11 @@ fn chain_spec() -> BoxedStrategy<ChainSpec> {
 					no_nc: no_nc
 						&& !matches!(
 							violation,
-							Some(Violation::PermittedDns) | Some(Violation::ExcludedDns) | Some(Violation::PermittedIp) | Some(Violation::ExcludedIp) | Some(Violation::PermittedDnsBare) | Some(Violation::BareOutsideExcludedDot)
+							Some(Violation::PermittedDns) | Some(Violation::ExcludedDns) | Some(Violation::PermittedIp) | Some(Violation::ExcludedIp) | Some(Violation::PermittedDnsBare) | Some(Violation::BareOutsideExcludedDot) | Some(Violation::ExcludedDnsEmpty)
 						),
+					tight,
+					// with "" permitted every DNS name is inside: the two permitted-DNS violations do not exist then
+					permitted_dns_empty: permitted_dns_empty && !matches!(violation, Some(Violation::PermittedDns) | Some(Violation::PermittedDnsBare)),
 					violation,
 				}
 			},
@@ -208,11 +220,15 @@ fn build(c: &ChainSpec, violation: Option<&Violation>) -> Result<Built3, String>
 	let dress = |(a, b): (TimeSpec, TimeSpec)| -> (TimeSpec, TimeSpec) {
 		(TimeSpec { unix: a.unix, nanos: c.time_nanos, offset: c.time_offset }, TimeSpec { unix: b.unix, nanos: c.time_nanos, offset: c.time_offset })
 	};
+	// margins: a month / a day, or - tight - one hour on every side (smaller than most UTC offsets,
+	// so an instant shifted by its offset falls on the wrong side)
+	let hour = 3600;
+	let (near_before, near_after, miss) = if c.tight { (hour, hour, hour) } else { (30 * day, 300 * day, day) };
 	let window = |w: Which| -> (TimeSpec, TimeSpec) {
 		dress(match violation {
-			Some(Violation::TimeBefore(x)) if *x == w => window_around(c.at, -(day), 400 * day), // starts after `at`
-			Some(Violation::TimeAfter(x)) if *x == w => window_around(c.at, 400 * day, -(day)), // ended before `at`
-			_ => window_around(c.at, 30 * day, 300 * day),
+			Some(Violation::TimeBefore(x)) if *x == w => window_around(c.at, -miss, 400 * day), // starts after `at`
+			Some(Violation::TimeAfter(x)) if *x == w => window_around(c.at, 400 * day, -miss), // ended before `at`
+			_ => window_around(c.at, near_before, near_after),
 		})
 	};
 	let name = |s: &str| DnSpec(vec![(DnTypeSpec::Org, DnValueSpec::new(StrKind::Utf8, s))]);
@@ -229,6 +245,8 @@ fn build(c: &ChainSpec, violation: Option<&Violation>) -> Result<Built3, String>
 		// permitted lists always hold both a DNS and an IP subtree so that names of the other kind stay allowed
 		Some(Violation::ExcludedDns) | Some(Violation::BareOutsideExcludedDot) => NcSpec { permitted: vec![], excluded: vec![dns.clone()] },
 		Some(Violation::ExcludedIp) => NcSpec { permitted: vec![], excluded: vec![subnet.clone()] },
+		Some(Violation::ExcludedDnsEmpty) => NcSpec { permitted: vec![], excluded: vec![SubtreeSpec::Dns(String::new())] },
+		_ if c.permitted_dns_empty => NcSpec { permitted: vec![SubtreeSpec::Dns(format!("unrelated-{}", c.domain)), SubtreeSpec::Dns(String::new()), subnet.clone()], excluded: vec![other_subnet] },
 		_ => NcSpec { permitted: vec![dns.clone(), subnet.clone()], excluded: vec![other_dns, other_subnet] },
 	};
 	let leaf_dns = match violation {
@@ -284,7 +302,7 @@ fn build(c: &ChainSpec, violation: Option<&Violation>) -> Result<Built3, String>
 	inter2.key_usages = ca_ku.clone();
 	inter2.use_aki = true;
 	inter2.is_ca = IsCaSpec::CaUnconstrained;
-	let (nb2, na2) = dress(window_around(c.at, 30 * day, 300 * day));
+	let (nb2, na2) = dress(window_around(c.at, near_before, near_after));
 	inter2.not_before = nb2;
 	inter2.not_after = na2;
 
@@ -381,6 +399,12 @@ pub fn check_chain(c: &ChainSpec, info: &mut CaseInfo) -> Result<(), String> {
 	if c.no_nc {
 		info.class("no-name-constraints");
 	}
+	if c.tight {
+		info.class("validity-margins:1h");
+	}
+	if c.permitted_dns_empty && !c.no_nc {
+		info.class("permitted-dns:empty-name");
+	}
 	if c.webpki_only_ku {
 		info.class("ca-ku-without-keyCertSign(webpki only)");
 		if o.is_ok() {
@@ -449,7 +473,7 @@ pub fn check_chain(c: &ChainSpec, info: &mut CaseInfo) -> Result<(), String> {
 pub fn def() -> PropertyDef {
 	PropertyDef {
 		id: "C12",
-		rule: "Chains root -> [intermediate] -> leaf generated by rcgen with a baseline that satisfies every constraint (CA flags, path lengths >= depth, validity windows covering the verification time, permitted DNS + IP subnets containing the leaf's names, excluded subtrees elsewhere, leaf EKU containing the requested purpose or absent, CA key usages empty or containing keyCertSign), and the same chain with exactly one dimension violated (issuer not a CA with and without explicit basicConstraints, path length, time before/after for each certificate, permitted/excluded DNS in both the plain and the subdomains-only \".domain\" form (a leaf naming the bare domain is outside a permitted \".domain\" and must be rejected, and outside an excluded \".domain\" and must be accepted), permitted/excluded IPv4/IPv6 subnets with prefix lengths 1..32 / 1..128, EKU, keyCertSign). Validity instants are stated with a generated sub-second part and UTC offset in a third of the cases, and 30 % of the chains carry no name constraints at all (so that a non-CA issuer can be a certificate without any extension). In a 12% share of cases every CA declares key usages without keyCertSign, which OpenSSL must refuse outright and webpki ignores, so that the other dimensions (path lengths in particular) are judged by webpki alone on certificates with that key usage. Oracle: OpenSSL X509_verify_cert (explicit time and purpose) and webpki verify_for_usage accept the baseline and reject the violated chain, each for the dimensions its documented semantics cover. Every case is non-trivial (a baseline with constraints present or a single-violation pair).",
+		rule: "Chains root -> [intermediate] -> leaf generated by rcgen with a baseline that satisfies every constraint (CA flags, path lengths >= depth, validity windows covering the verification time, permitted DNS + IP subnets containing the leaf's names, excluded subtrees elsewhere, leaf EKU containing the requested purpose or absent, CA key usages empty or containing keyCertSign), and the same chain with exactly one dimension violated (issuer not a CA with and without explicit basicConstraints, path length, time before/after for each certificate, permitted/excluded DNS in both the plain and the subdomains-only \".domain\" form (a leaf naming the bare domain is outside a permitted \".domain\" and must be rejected, and outside an excluded \".domain\" and must be accepted; the empty DNS subtree, which every DNS name lies inside, as the excluded subtree (reject) or among the permitted ones (accept)), permitted/excluded IPv4/IPv6 subnets with prefix lengths 1..32 / 1..128, EKU, keyCertSign). Validity instants are stated with a generated sub-second part and UTC offset in a third of the cases, in 40 % of the cases the validity windows begin / end one hour from the verification time (less than most offsets), and 30 % of the chains carry no name constraints at all (so that a non-CA issuer can be a certificate without any extension). In a 12% share of cases every CA declares key usages without keyCertSign, which OpenSSL must refuse outright and webpki ignores, so that the other dimensions (path lengths in particular) are judged by webpki alone on certificates with that key usage. Oracle: OpenSSL X509_verify_cert (explicit time and purpose) and webpki verify_for_usage accept the baseline and reject the violated chain, each for the dimensions its documented semantics cover. Every case is non-trivial (a baseline with constraints present or a single-violation pair).",
 		assumptions: vec![
 			"OpenSSL and webpki implement RFC 5280 path validation for the dimensions each is asked about",
 			"webpki is not asked about the trust anchor's own CA flag, validity or key usage, which it does not examine",
